@@ -678,9 +678,39 @@ func (e *env) monthDiffers(r rhs) bool {
 	return e.relInstant(r) != us.Int64*1000
 }
 
+// lostTimes: the `time` values (ns) of the rows a single-table statement loses through pruning.
+func (e *env) lostTimes(q *query, on, off []string) []int64 {
+	if q.kind != "s" || len(on) == len(off) {
+		return nil
+	}
+	have := map[string]int{}
+	for _, r := range on {
+		have[r]++
+	}
+	tOf := map[string]int64{}
+	for _, f := range e.files {
+		if f.tbl == "cpu" {
+			for _, r := range f.rows {
+				tOf[fmt.Sprint(r.rid)] = r.t * usNs
+			}
+		}
+	}
+	var out []int64
+	for _, r := range off {
+		if have[r] > 0 {
+			have[r]--
+			continue
+		}
+		if t, ok := tOf[r]; ok {
+			out = append(out, t)
+		}
+	}
+	return out
+}
+
 // classify names the class of a statement by the first feature (fixed priority) that takes it out of the class on
 // which the Lean theorem C18_partial proves pruning exact; "exact-class" = inside that class.
-func (e *env) classify(q *query, cached, newPart bool, tr *pruning.TimeRange) string {
+func (e *env) classify(q *query, cached, newPart bool, tr *pruning.TimeRange, lost []int64) string {
 	switch q.kind {
 	case "j":
 		return "join"
@@ -697,30 +727,39 @@ func (e *env) classify(q *query, cached, newPart bool, tr *pruning.TimeRange) st
 		return "not"
 	}
 	suffix, month, leHour, unreadLit := false, false, false, false
+	// an atom only puts the statement into its class when it actually SUPPLIED a bound of the extracted range
+	instOf := func(r rhs) (int64, bool) {
+		switch r.kind {
+		case 'L':
+			return r.l.inst, r.l.goOK
+		case 'R':
+			return e.relInstant(r), r.sp != 3
+		}
+		return 0, false
+	}
+	supplies := func(r rhs, endOnly bool) bool {
+		in, ok := instOf(r)
+		if !ok || tr == nil {
+			return false
+		}
+		return tr.End.Equal(utc(in)) || (!endOnly && tr.Start.Equal(utc(in)))
+	}
 	p.atoms(func(a *batom) {
-		vis := func(r rhs) bool { return r.kind == 'L' || r.kind == 'R' }
-		if (a.col == 'e' || a.col == 's') && (vis(a.r) || (a.between && vis(a.r2))) {
+		if (a.col == 'e' || a.col == 's') && (supplies(a.r, false) || (a.between && supplies(a.r2, false))) {
 			suffix = true
 		}
 		for i, r := range []rhs{a.r, a.r2} {
 			if i == 1 && !a.between {
 				break
 			}
-			if r.kind == 'R' && r.unit == "month" && r.sp != 3 && e.monthDiffers(r) {
+			if r.kind == 'R' && r.unit == "month" && r.sp != 3 && supplies(r, false) && e.monthDiffers(r) {
 				// known class: Go AddDate(0,n,0) overflows the day of month where DuckDB clamps it
 				month = true
 			}
 			upper := (a.between && i == 1) || (!a.between && a.op == "le")
-			if a.col == 't' && upper {
-				switch r.kind {
-				case 'L':
-					if r.l.goOK && r.l.inst%hourNs == 0 {
-						leHour = true
-					}
-				case 'R':
-					if e.relInstant(r)%hourNs == 0 {
-						leHour = true
-					}
+			if a.col == 't' && upper && supplies(r, true) {
+				if in, _ := instOf(r); in%hourNs == 0 {
+					leHour = true
 				}
 			}
 			if r.kind == 'L' && !r.l.goOK {
@@ -735,21 +774,28 @@ func (e *env) classify(q *query, cached, newPart bool, tr *pruning.TimeRange) st
 	if month {
 		return "relative-month"
 	}
-	if leHour {
-		return "le-end-on-hour"
-	}
 	var minT, maxT int64 = 1 << 62, -(1 << 62)
-	for _, f := range e.files {
-		if f.tbl != "cpu" {
-			continue
+	atEnd := false
+	times := lost
+	if len(times) == 0 {
+		// nothing lost: label by the stored rows (histogram only)
+		for _, f := range e.files {
+			if f.tbl == "cpu" {
+				for _, r := range f.rows {
+					times = append(times, r.t*usNs)
+				}
+			}
 		}
-		for _, r := range f.rows {
-			if r.t*usNs < minT {
-				minT = r.t * usNs
-			}
-			if r.t*usNs > maxT {
-				maxT = r.t * usNs
-			}
+	}
+	for _, t := range times {
+		if t < minT {
+			minT = t
+		}
+		if t > maxT {
+			maxT = t
+		}
+		if tr != nil && tr.End.Equal(utc(t)) {
+			atEnd = true
 		}
 	}
 	if tr != nil {
@@ -762,6 +808,9 @@ func (e *env) classify(q *query, cached, newPart bool, tr *pruning.TimeRange) st
 		if tr.End.Equal(utc(e.now+e.soAdd)) && floorDiv(maxT, hourNs)*hourNs >= e.now+e.soAdd {
 			return "start-only-future"
 		}
+	}
+	if leHour && (atEnd || len(lost) == 0) {
+		return "le-end-on-hour"
 	}
 	return "exact-class"
 }
@@ -856,7 +905,7 @@ func (e *env) doQuery(q *query, cached bool) {
 		}
 	}
 
-	class := e.classify(q, cached, newPart, tr)
+	class := e.classify(q, cached, newPart, tr, e.lostTimes(q, rowsOn, rowsOff))
 	if class == "exact-class" && cached {
 		// statements inside the exact class can only differ through a stale cached plan. Two distinct causes:
 		// a compaction (which fires InvalidateCaches) since the statement was cached, or a partition created by
